@@ -20,7 +20,10 @@ Inductive omevent :=
 | OML1 (t : Z) (lt : Z) (bid ask : option (Q * Q))
 | OMOther (t : Z).
 
-Inductive oevent := OMarket (i : N) (e : omevent) | OFill (f : ofill).
+(** [OMarket i rcv e]: market event for instrument [i] whose MarketEvent.time_received is [rcv]
+    (varied independently of the exchange time by the harness: the market data and the mark
+    must depend on exchange timestamps only, the model does not read [rcv]) *)
+Inductive oevent := OMarket (i : N) (rcv : Z) (e : omevent) | OFill (f : ofill).
 
 (** one instrument's state as read from EngineState.instruments: position.current, data.price(),
     data.l1, data.last_traded_price *)
@@ -57,10 +60,10 @@ Definition mevent_of (e : omevent) : mevent :=
   end.
 Definition eevent_of (e : oevent) : eevent :=
   match e with
-  | OMarket i m => EMarket i (mevent_of m)
+  | OMarket i _ m => EMarket i (mevent_of m)
   | OFill f => EFill (fill_of f)
   end.
-Definition oroute (e : oevent) : N := match e with OMarket i _ => i | OFill f => of_inst f end.
+Definition oroute (e : oevent) : N := match e with OMarket i _ _ => i | OFill f => of_inst f end.
 
 (* ---- tolerances ----------------------------------------------------------------------------------- *)
 
@@ -69,8 +72,8 @@ Definition fills_of (evs : list oevent) : list ofill :=
 Definition lvl_price (l : option (Q * Q)) : Q := match l with Some (p, _) => Qabs' p | None => 0 end.
 Definition ev_price (e : oevent) : Q :=
   match e with
-  | OMarket _ (OMTrade _ (Some p)) => Qabs' p
-  | OMarket _ (OML1 _ _ b a) => Qmaxq (lvl_price b) (lvl_price a)
+  | OMarket _ _ (OMTrade _ (Some p)) => Qabs' p
+  | OMarket _ _ (OML1 _ _ b a) => Qmaxq (lvl_price b) (lvl_price a)
   | OFill f => Qabs' (of_price f)
   | _ => 0
   end.
@@ -255,7 +258,7 @@ Fixpoint prop_run (indep : bool) (t : tols) (tr : Q) (s : specs) (evs : list oev
   | e :: evs', o :: obs' =>
       let i := oroute e in
       let g := match e with
-               | OMarket _ m => spec_market indep (s i) m (oi_price (fst o))
+               | OMarket _ _ m => spec_market indep (s i) m (oi_price (fst o))
                | OFill f => spec_fill (s i) f
                end in
       verdict t tr g (fst o) :: prop_run indep t tr (supd s i g) evs' obs'
@@ -264,7 +267,7 @@ Fixpoint prop_run (indep : bool) (t : tols) (tr : Q) (s : specs) (evs : list oev
   end.
 
 Definition l1_times_wf (evs : list oevent) : bool :=
-  forallb (fun e => match e with OMarket _ (OML1 t lt _ _) => Z.eqb t lt | _ => true end) evs.
+  forallb (fun e => match e with OMarket _ _ (OML1 t lt _ _) => Z.eqb t lt | _ => true end) evs.
 
 Definition verdicts (c : case) : list N :=
   match c with
@@ -288,9 +291,9 @@ Definition wf_event (n : N) (e : oevent) : bool :=
   match e with
   | OFill f => N.ltb (of_inst f) n && negb (Qle_bool (of_qty f) 0) && negb (Qle_bool (of_price f) 0) &&
                Qle_bool 0 (of_fee f)
-  | OMarket i (OML1 _ _ (Some b) (Some a)) =>
+  | OMarket i _ (OML1 _ _ (Some b) (Some a)) =>
       N.ltb i n && Qle_bool 0 (snd b) && Qle_bool 0 (snd a) && negb (Qle_bool (snd b + snd a) 0)
-  | OMarket i _ => N.ltb i n
+  | OMarket i _ _ => N.ltb i n
   end.
 Definition wf_case (c : case) : bool :=
   match c with CEngine insts evs _ _ _ => forallb (wf_event (ninst insts)) evs end.
